@@ -149,7 +149,18 @@ Val(ns, i, r, p) ==
     [] n.op = "Beta"     -> BetaTab[n.name].vals[p]
     [] n.op = "Variable" -> VarTab[n.name].vals[ObsOf(r)]
     [] n.op = "bioDraws" -> DrawTab[n.name].vals[ObsOf(r)][DrawOf(r)]   \* the r-th draw of ITS OWN series
+    \* Monte-Carlo inside a formula: the mean over the draws of the observation -- the same on every draw
+    \* of that observation, so that whatever is built above it is a quantity of the observation
+    [] n.op = "MonteCarlo" ->
+          Div(SumSeq([d \in 1..NDraws |-> Val(ns, n.kids[1], RowOf(ObsOf(r), d), p)]), I(NDraws))
     [] OTHER             -> OpVal(n, V)
+
+\* a draw variable that is not (on some path) below a Monte-Carlo operator
+RECURSIVE Open(_, _)
+Open(ns, i) == \/ ns[i].op = "bioDraws"
+               \/ (ns[i].op # "MonteCarlo" /\ \E j \in 1..Len(ns[i].kids) : Open(ns, ns[i].kids[j]))
+RECURSIVE HasOp(_, _, _)
+HasOp(ns, i, op) == ns[i].op = op \/ \E j \in 1..Len(ns[i].kids) : HasOp(ns, ns[i].kids[j], op)
 
 (***************************************************************************)
 (* Domain of a node given its children (the property's "regular domain"),  *)
@@ -165,6 +176,8 @@ NodeOK(ns, i, r, p) ==
        [] n.op = "PowerConstant" ->
              IF QIsInt(n.num) THEN (n.num.n >= 0 \/ NonZero(V(1))) ELSE Pos(V(1))
        [] n.op = "log" -> Pos(V(1))
+       \* the library's rule: a Monte-Carlo operator has a draw to integrate and no other one below it
+       [] n.op = "MonteCarlo" -> Open(ns, n.kids[1]) /\ ~HasOp(ns, n.kids[1], "MonteCarlo")
        [] n.op = "logzero" -> Pos(V(1)) \/ IsZero(V(1))
        [] n.op \in {"bioMin", "bioMax"} \cup Discrete -> \A j \in 1..NK : IsQ(V(j))
        [] n.op = "Elem" -> /\ IsQ(V(1)) /\ QIsInt(V(1)) /\ AsInt(V(1)) \in SeqToSet(n.keys)
@@ -289,6 +302,12 @@ Jet(ns, i, r, p) ==
           [] n.op = "cos" -> JCos(J(1))
           [] n.op = "bioNormalCdf" -> JPhi(J(1))
           [] n.op = "bioMultSum" -> JSumSeq([j \in 1..NK |-> J(j)])
+          \* the derivative of a mean is the mean of the derivatives
+          [] n.op = "MonteCarlo" ->
+               LET JD(d) == Jet(ns, n.kids[1], RowOf(ObsOf(r), d), p) IN
+               [v |-> v,
+                g |-> [k \in KK |-> SDiv(SSumSeq([d \in 1..NDraws |-> JD(d).g[k]]), I(NDraws))],
+                h |-> [kl \in KK \X KK |-> SDiv(SSumSeq([d \in 1..NDraws |-> JD(d).h[kl]]), I(NDraws))]]
           [] n.op = "Elem" -> J(1 + IndexOf(n.keys, AsInt(V(1))))
           [] n.op = "ConditionalSum" ->
                JSumSeq([j \in 1..(NK \div 2) |-> IF V(2 * j - 1).n # 0 THEN J(2 * j) ELSE JConst(Zero)])
@@ -361,15 +380,19 @@ LineNode(l, pos) ==   \* pos: id -> position among the lines
     [op |-> l.op, kids |-> [j \in 1..Len(l.kids) |-> pos[l.kids[j]]], num |-> l.num,
      name |-> 0, keys |-> l.keys, elem |-> l.elem, kind |-> l.kind, free |-> l.free]
 
-RECURSIVE EvalLine(_, _, _)
-EvalLine(ls, q, tab) ==
+\* tabs: one table per draw of the observation (a single one without draws); d: the current draw
+RECURSIVE EvalLine(_, _, _, _)
+EvalLine(ls, q, tabs, d) ==
   LET n == ls[q]
-      V(j) == EvalLine(ls, n.kids[j], tab)
+      tab == tabs[d]
+      V(j) == EvalLine(ls, n.kids[j], tabs, d)
   IN
   CASE n.op = "Numeric"  -> n.num
     [] n.op = "Beta"     -> IF n.free THEN tab.free[n.kind + 1] ELSE tab.fixed[n.kind + 1]
     [] n.op = "Variable" -> tab.row[n.kind + 1]
     [] n.op = "bioDraws" -> tab.draws[n.kind + 1]
+    [] n.op = "MonteCarlo" ->
+          Div(SumSeq([e \in 1..Len(tabs) |-> EvalLine(ls, n.kids[1], tabs, e)]), I(Len(tabs)))
     [] OTHER             -> OpVal(n, V)
 
 \* well-formedness of a signature: one line per id, children defined before use
@@ -378,11 +401,12 @@ SigWellFormed(sig) ==     \* a shared node may be listed again, with the same li
     /\ \A q \in 1..Len(sig) : \A j \in 1..Len(sig[q].kids) :
           \E q0 \in 1..(q - 1) : sig[q0].id = sig[q].kids[j]
 
-EvalSig(sig, tab) ==
+EvalSigD(sig, tabs, d) ==
     LET ids == {sig[q].id : q \in 1..Len(sig)}
         pos == [x \in ids |-> CHOOSE q \in 1..Len(sig) : sig[q].id = x /\ \A q2 \in 1..(q - 1) : sig[q2].id # x]
         ls  == [q \in 1..Len(sig) |-> LineNode(sig[q], pos)]
-    IN  EvalLine(ls, Len(ls), tab)
+    IN  EvalLine(ls, Len(ls), tabs, d)
+EvalSig(sig, tab) == EvalSigD(sig, <<tab>>, 1)
 
 (***************************************************************************)
 (* Generator.                                                              *)
@@ -395,7 +419,7 @@ AllOpNames == <<"Plus", "Minus", "Times", "Divide", "Power", "bioMin", "bioMax",
                 "Equal", "NotEqual", "LessOrEqual", "GreaterOrEqual", "Less", "Greater",
                 "UnaryMinus", "exp", "log", "logzero", "sin", "cos", "bioNormalCdf", "PowerConstant",
                 "bioMultSum", "BelongsTo", "Elem", "ConditionalSum", "bioLinearUtility",
-                "_bioLogLogit", "_bioLogLogitFullChoiceSet">>
+                "_bioLogLogit", "_bioLogLogitFullChoiceSet", "MonteCarlo">>
 RECURSIVE HashSeq(_, _)
 HashSeq(sq, acc) == IF sq = << >> THEN acc ELSE HashSeq(Tail(sq), (acc * 31 + Head(sq) + 7) % 1000003)
 Hash(n) == HashSeq(n.keys, HashSeq(n.kids, (IndexOf(AllOpNames, n.op) * 131 + Abs(n.num.n) * 17 + n.num.d) % 1000003))
@@ -452,7 +476,11 @@ AddNary == CanAdd /\
 AllUsed(ns) == \A i \in (NL + 1)..(Len(ns) - 1) :
                   \E j \in (i + 1)..Len(ns) : \E q \in 1..Len(ns[j].kids) : ns[j].kids[q] = i
 
-Emit == ~done /\ NOps(nodes) >= 1 /\ AllUsed(nodes) /\ done' = TRUE /\ UNCHANGED nodes
+\* when the Monte-Carlo operator is among the operators, a finished formula has no draw left open
+\* (otherwise the driver puts the operator at the root: Emitted.closed tells which)
+Emit == ~done /\ NOps(nodes) >= 1 /\ AllUsed(nodes)
+        /\ ("MonteCarlo" \in UnOps => ~Open(nodes, Len(nodes)) /\ HasOp(nodes, Len(nodes), "MonteCarlo"))
+        /\ done' = TRUE /\ UNCHANGED nodes
 
 Next == AddUnary \/ AddBinary \/ AddNary \/ Emit
 Spec == Init /\ [][Next]_vars
@@ -465,7 +493,9 @@ Root == Len(nodes)
 \* C01, design level: the signature and the tables are sufficient and correctly indexed
 SigSound == done =>
     /\ SigWellFormed(Sig(nodes, Root))
-    /\ \A r \in Rows, p \in Points : EvalSig(Sig(nodes, Root), Tables(nodes, {Root}, p, r)) = Val(nodes, Root, r, p)
+    /\ \A r \in Rows, p \in Points :
+          EvalSigD(Sig(nodes, Root), [d \in 1..NDraws |-> Tables(nodes, {Root}, p, RowOf(ObsOf(r), d))], DrawOf(r))
+              = Val(nodes, Root, r, p)
 
 \* the numbering is by name: ranks form 0..K-1, and do not depend on the order of BetaTab
 NumberingByName ==
@@ -507,16 +537,17 @@ Emitted ==
     LET diff == Differentiable(nodes, Root) IN
     [ops |-> [i \in 1..NOps(nodes) |-> CompactNode(nodes[NL + i])],
      root |-> Root, nleaves |-> NL, diff |-> diff, freeocc |-> FreeOcc(nodes, Root),
+     closed |-> ~Open(nodes, Root),
      \* per OBSERVATION: the value, or with draws the Monte-Carlo mean over the draws of that observation
      vals |-> [o \in Obs |-> [p \in Points |->
-                 IF NDraws = 1 THEN Compact(Val(nodes, Root, o, p))
+                 IF NDraws = 1 \/ ~Open(nodes, Root) THEN Compact(Val(nodes, Root, RowOf(o, 1), p))
                  ELSE Compact(Div(SumSeq([d \in 1..NDraws |-> Val(nodes, Root, RowOf(o, d), p)]), I(NDraws)))]],
      table |-> [o \in Obs |-> [d \in 1..NDraws |-> LET oD == OccDraws(nodes, {Root}) IN
                  [k \in 1..Cardinality(oD) |-> Compact(DrawTab[DrawAtRank(k - 1, oD)].vals[o][d])]]],
      jets |-> IF diff
               THEN [o \in Obs |-> [p \in Points |->
-                      IF NDraws = 1
-                      THEN LET j == Jet(nodes, Root, o, p) IN
+                      IF NDraws = 1 \/ ~Open(nodes, Root)
+                      THEN LET j == Jet(nodes, Root, RowOf(o, 1), p) IN
                            [g |-> [k \in KK |-> Compact(j.g[k])],
                             h |-> [k \in KK |-> [l \in KK |-> Compact(j.h[<<k, l>>])]]]
                       ELSE [g |-> [k \in KK |-> Compact(SDiv(SSumSeq([d \in 1..NDraws |-> Jet(nodes, Root, RowOf(o, d), p).g[k]]), I(NDraws)))],
